@@ -1,14 +1,19 @@
-"""D20: `ReplSet.pop()` = `set.pop()`, whose choice is NOT a function of the set's contents: CPython scans
-the hash table from a per-object "finger" position, so the element returned depends on the table size
-(which only ever grows while the object lives), on the insertion/deletion history (collision chains)
-and on the finger left behind by earlier pops.  None of that is part of `_serialize()`: a replica rebuilt
-from a snapshot (pickle round trip of the attribute dictionary) holds an equal set with another layout,
-pops another element, and from then on the replicas hold different contents ("after replication all
-replicas of a battery are equal" fails).  Three independent mechanisms are replayed, with ints only
-(their hash does not depend on PYTHONHASHSEED; with str elements two processes diverge even without a
-snapshot).  Recorded as a finding (signature `batteries.ReplSet.pop:layout-dependent`): there is no
-small repair that keeps `set` semantics for arbitrary (unorderable) elements."""
+"""D20 (repaired in /repo by 56b6cb5, fixes/D20-replset-pop-deterministic.diff): `ReplSet.pop()` used to be
+`set.pop()`, whose choice is NOT a function of the set's contents: CPython scans the hash table from a
+per-object "finger", so the element returned depends on the table size (which only grows while the object
+lives), on the insertion/deletion history (collision chains), on the finger left behind by earlier pops and,
+for str elements, on the per-process hash seed.  None of that is part of `_serialize()`: a replica rebuilt
+from a snapshot, or simply another process, held an equal set, popped another element, and from then on the
+replicas held different contents ("after replication all replicas of a battery are equal" failed).
+
+The witness evaluates exactly that statement: two ReplSets with EQUAL contents (different histories / one
+rebuilt by a pickle round trip of `_serialize()` / built in processes with different PYTHONHASHSEED) execute
+pop(): same result, same contents afterwards.  Silent on a repaired tree; on the tree before the repair it
+trips with signature `batteries.ReplSet.pop:layout-dependent`."""
+import os
 import pickle
+import subprocess
+import sys
 import time
 
 from harness.corr.batteries_ops import load_batteries
@@ -17,37 +22,85 @@ from harness.witness._common import result, tag
 PROPERTIES = ["C15"]
 ORDER = 10
 
+# name -> (history of replica A, how replica B is made: "snapshot" of A | an explicit history)
 SCENARIOS = {
-    # table grown to 128 slots, then emptied down to {1, 8}: rebuilt replica has 8 slots (8 -> slot 0)
-    "shrunk-table": [("add", i) for i in range(40)] + [("discard", i) for i in range(40) if i not in (1, 8)],
+    # table grown to 128 slots, then emptied down to {1, 8}: the rebuilt replica has 8 slots (8 -> slot 0)
+    "shrunk-table": ([("add", i) for i in range(40)] + [("discard", i) for i in range(40) if i not in (1, 8)], "snapshot"),
     # pop finger: after pop() the scan resumes behind the popped slot; a rebuilt replica starts at 0
-    "finger": [("add", 1), ("add", 2), ("add", 3), ("pop",), ("add", 1)],
-    # found by the seeded monitor run, minimised
-    "finger-2": [("add", 1), ("pop",), ("add", 5), ("add", 16)],
+    "finger": ([("add", 1), ("add", 2), ("add", 3), ("pop",), ("add", 1), ("add", 2), ("add", 3)], "snapshot"),
+    # found by the seeded monitor run on the old code, minimised
+    "finger-2": ([("add", 1), ("pop",), ("add", 1), ("add", 5), ("add", 16)], "snapshot"),
+    # same contents, other insertion order (1 and 9 collide in an 8-slot table)
+    "insertion-order": ([("add", 1), ("add", 9)], [("add", 9), ("add", 1)]),
+    # repr order is not numeric order: a rule must still be one rule
+    "negative-and-long": ([("add", x) for x in (100, -2, 10, 2, -1)], [("add", x) for x in (-1, 2, 10, -2, 100)]),
 }
+
+CHILD = r"""
+import sys
+sys.path.insert(0, sys.argv[1])
+from pysyncobj.batteries import ReplSet
+s = ReplSet()
+for w in ['pear', 'fig', 'apple', 'kiwi', 'plum', 'lime', 'date', 'nut']:
+    s.add(w, _doApply=True)
+out = []
+for _ in range(4):
+    out.append(s.pop(_doApply=True))
+print(','.join(out) + '|' + ','.join(sorted(s.rawData())))
+"""
+
+
+def build(B, hist):
+    a = B.ReplSet()
+    for op in hist:
+        getattr(a, op[0])(*op[1:], _doApply=True)
+    return a
 
 
 def scenario(repo, name):
     B = load_batteries(repo)
-    a = B.ReplSet()
-    for op in SCENARIOS[name]:
-        getattr(a, op[0])(*op[1:], _doApply=True)
-    b = B.ReplSet()                                   # the replica that installs a's snapshot
-    b._deserialize(pickle.loads(pickle.dumps(a._serialize(), -1)))
+    hist, other = SCENARIOS[name]
+    a = build(B, hist)
+    if other == "snapshot":
+        b = B.ReplSet()                               # the replica that installs a's snapshot
+        b._deserialize(pickle.loads(pickle.dumps(a._serialize(), -1)))
+    else:
+        b = build(B, other)
     before_a, before_b = sorted(a.rawData()), sorted(b.rawData())
     pa, pb = a.pop(_doApply=True), b.pop(_doApply=True)
     after_a, after_b = sorted(a.rawData()), sorted(b.rawData())
     obs = {"scenario": name, "contents_before": [before_a, before_b], "pop": [pa, pb],
            "contents_after": [after_a, after_b]}
     viols = []
-    if before_a == before_b and (pa != pb or after_a != after_b):
+    if before_a != before_b:
+        viols.append({"signature": "batteries.ReplSet:witness-setup-contents-differ",
+                      "what": "scenario %s: contents differ before the pop: %r / %r" % (name, before_a, before_b)})
+    elif pa != pb or after_a != after_b:
         viols.append({"signature": "batteries.ReplSet.pop:layout-dependent",
-                      "what": "two replicas of a ReplSet with equal contents %r (one applied the history, one was rebuilt from "
-                              "its snapshot) execute pop(): results %r / %r, contents afterwards %r / %r"
-                              % (before_a, pa, pb, after_a, after_b)})
-    elif before_a != before_b:
-        viols.append({"signature": "batteries.ReplSet:snapshot-changes-contents",
-                      "what": "snapshot round trip changed the contents: %r -> %r" % (before_a, before_b)})
+                      "what": "two replicas of a ReplSet with equal contents %r (scenario %s) execute pop(): results %r / %r, "
+                              "contents afterwards %r / %r" % (before_a, name, pa, pb, after_a, after_b)})
+    elif pa not in before_a or after_a != [x for x in before_a if x != pa]:
+        viols.append({"signature": "batteries.ReplSet.pop:not-a-set-pop",
+                      "what": "pop() on %r returned %r and left %r" % (before_a, pa, after_a)})
+    return viols, obs
+
+
+def hashseed_scenario(repo):
+    """str elements, two processes with different hash seeds (what two nodes of a real cluster are)"""
+    outs = []
+    for seed in ("1", "2", "12345"):
+        env = dict(os.environ, PYTHONHASHSEED=seed)
+        p = subprocess.run([sys.executable, "-c", CHILD, repo], env=env, stdout=subprocess.PIPE, stderr=subprocess.PIPE,
+                           timeout=60)
+        outs.append(p.stdout.decode().strip() if p.returncode == 0 else "child failed: " + p.stderr.decode()[-300:])
+    obs = {"scenario": "str-elements-hash-seeds", "pops|rest per PYTHONHASHSEED 1,2,12345": outs}
+    viols = []
+    if any(o.startswith("child failed") for o in outs):
+        viols = []                                    # environment problem, reported through the sample only
+    elif len(set(outs)) > 1:
+        viols.append({"signature": "batteries.ReplSet.pop:layout-dependent",
+                      "what": "ReplSets of the same 8 strings in three processes with different hash seeds: four pop() calls "
+                              "returned / left %r" % (outs,)})
     return viols, obs
 
 
@@ -60,13 +113,21 @@ def run(ctx):
         samples.append(obs)
         if v and not viols:
             viols = v
-    r = result("witness.d20_replset_pop_layout", viols, samples[0], t0, {"scenarios_tripped": sum(1 for s in samples if s["pop"][0] != s["pop"][1])})
-    r["cases"] = r["distinct"] = len(SCENARIOS)
-    r["samples"] = samples
+    v, obs = hashseed_scenario(ctx.repo)
+    tag(v, "d20_replset_pop_layout", {"scenario": "str-elements-hash-seeds"})
+    samples.append(obs)
+    if v and not viols:
+        viols = v
+    r = result("witness.d20_replset_pop_layout", viols, samples[0], t0)
+    r["cases"] = r["distinct"] = len(samples)
+    r["samples"] = samples[:1] + samples[-2:]
     return r
 
 
 def replay(ctx, violation):
     name = violation.get("replay", {}).get("scenario", "shrunk-table")
-    viols, obs = scenario(ctx.repo, name)
+    if name == "str-elements-hash-seeds":
+        viols, obs = hashseed_scenario(ctx.repo)
+    else:
+        viols, obs = scenario(ctx.repo, name)
     return {"violated": bool(viols), "observed": obs, "violations": viols}
